@@ -138,8 +138,11 @@ func vsOpenWorld(c *sim.Case, res *sim.Result, wrap func(redisBackend) redisBack
 	}
 	// Size knobs of the case (none of them is read by the gateway's command
 	// paths; they only keep a run cheap). 0 = leave main.go's value.
-	if v := c.CfgInt("memtable_size", 0); v > 0 {
-		w.opt.MemTableSize = v
+	if v := c.CfgInt("memtable_size", 1<<20); v > 0 {
+		w.opt.MemTableSize = v // main.go: 64 MiB, zeroed at every Open
+	}
+	if v := c.CfgInt("vlog_file_size", 1<<20); v > 0 {
+		w.opt.ValueLogFileSize = int(v) // main.go: 0 = 20 preallocated 512 MiB mmap files
 	}
 	verifhook.Reset()
 	// The compactor start delay is the only math/rand consumer in a run this
